@@ -33,6 +33,8 @@ func main() {
 	wall := flag.Float64("wall", 0, "wall seconds so far (aggregate)")
 	deadline := flag.Float64("deadline", 0, "seconds after which the worker stops (exhaustive:false)")
 	extra := flag.String("extra", "", "json file with extra coverage keys (aggregate)")
+	config := flag.String("config", "", "build configuration (extra tags) this binary was built with")
+	nconfigs := flag.Int("nconfigs", 0, "number of build configurations expected (aggregate)")
 	list := flag.Bool("list", false, "list properties")
 	verbose := flag.Bool("v", false, "verbose failures")
 	flag.Parse()
@@ -57,7 +59,7 @@ func main() {
 	seed, _ := strconv.ParseInt(os.Getenv("VERIF_SEED"), 10, 64)
 	if *agg {
 		o := core.AggOpts{VerifDir: *verif, RunDir: *rundir, Prop: *prop, Tier: *tier, Seed: seed, Level: def.Level, Rule: def.Rule,
-			Assume: def.Assume, WallS: *wall, Record: *record, RecordRe: *recordRe}
+			Assume: def.Assume, WallS: *wall, Record: *record, RecordRe: *recordRe, NConfigs: *nconfigs}
 		if *extra != "" {
 			if b, err := os.ReadFile(*extra); err == nil {
 				json.Unmarshal(b, &o.ExtraCov)
@@ -73,7 +75,11 @@ func main() {
 	debug.SetGCPercent(400)
 	r := core.NewRun(*prop, *tier, si, sn)
 	r.Seed = seed
+	r.Config = *config
 	r.ReplayCase = *replay
+	if *config != "" && strings.HasSuffix(r.ReplayCase, "|cfg="+*config) {
+		r.ReplayCase = strings.TrimSuffix(r.ReplayCase, "|cfg="+*config)
+	}
 	r.Verbose = *verbose
 	if *only != "" {
 		r.OnlyRe = regexp.MustCompile(*only)
